@@ -25,7 +25,7 @@ func (C06) Plan(tier string) core.Plan {
 
 func (C06) Info() core.Info {
 	return core.Info{
-		Rule: "the union of all world generators (random, planned, exact-match, mutual cycles of multi-input converters) with the ill-behaved shapes switched on: positional lists repeating a type (targets and converters, inputs and outputs), every name/subtype/type-only combination, built functions with empty sides, generators that decline or report an error, nil option, nil values, non-function and nil converters; driven through Call, Convert, Redefine and calls of redefined functions, with and without injected converter errors and nil structs. Well-formedness filter exactly as the statement. Oracle: every operation returns on its simulated thread (no panic, no unbounded recursion, within the step budget); a nil option yields an error. Non-trivial: world has >=1 converter or a malformed option; distinct = distinct (world shape, event-log hash)",
+		Rule: "the union of all world generators (random, planned, exact-match, mutual cycles of multi-input converters) with the ill-behaved shapes switched on: positional lists repeating a type (targets and converters, inputs and outputs), every name/subtype/type-only combination, built functions with empty sides, generators that decline or report an error, nil option, nil values, non-function and nil converters; driven through Call, Convert, Redefine and calls of redefined functions, with and without injected converter errors and nil structs. Well-formedness filter exactly as the statement. Oracle: every operation returns on its simulated thread (no panic, no unbounded recursion, within the step budget); a nil option yields an error; a concrete type implementing error as last ordinary result; empty value sets made through the constructor; every third party built through NewFuncList. Non-trivial: world has >=1 converter or a malformed option; distinct = distinct (world shape, event-log hash)",
 		Assumptions: []string{
 			"depth budget 400 library frames and 2,000,000 simulated steps per operation: an order of magnitude above the deepest legal run measured on this tree (evidence: max_depth_seen); exceeding it is reported as divergence",
 		},
